@@ -78,7 +78,7 @@ def run(module, cfg=None, workers=1, env=None, args=(), timeout=3600, heap="4g",
             cfg_path = os.path.join(SPEC_DIR, cfg if cfg else module + ".cfg")
         cmd = ["java", "-XX:+UseParallelGC", "-Xmx" + heap, "-Xss16m",
                "-cp", JAR, "tlc2.TLC", "-config", cfg_path, "-metadir", meta,
-               "-workers", str(workers), "-noGenerateSpecTE"]
+               "-workers", str(workers), "-noGenerateSpecTE", "-maxSetSize", "50000000"]
         if not deadlock:
             cmd.append("-deadlock")  # -deadlock DISABLES deadlock checking
         if coverage:
